@@ -146,7 +146,11 @@ def judge06 (input impl : String) : String × String × String :=
   let model := handle06 input
   let modelCol := if model == impl then "=" else model
   let (verdict, note) := oracle06 impl
-  if verdict != "=" then (modelCol, verdict, "")
+  -- a named import whose existence probe met a read fault must not go ahead (it would overwrite the key that holds the id)
+  let lastOut := ((((impl.splitOn " || ").headD "").splitOn " ").getLast?).getD ""
+  if input.endsWith "|rfault=1" && lastOut.startsWith "ok" then
+    (modelCol, "IMPORT-WENT-AHEAD-ALTHOUGH-THE-STORE-COULD-NOT-BE-READ (an existing key under that id is replaced)", "")
+  else if verdict != "=" then (modelCol, verdict, "")
   else if note == "id-not-thumbprint" then
     -- which ops returned ok:0 ? named imports are the caller's choice; un-named imports are C06-F2
     match parse input with
